@@ -47,7 +47,20 @@ RECURSIVE BuildExtra(_, _, _, _)
 BuildExtra(H, o, xs, i) ==
     IF i > Len(xs) THEN H ELSE BuildExtra(APut(H, o, xs[i].n.s, xs[i].v).H, o, xs, i + 1)
 
-BuildObj(H0, ob) ==
+(* A primitive receiver [cls |-> "prim", v, inh]: step 1 of every method is O = ToObject(this value),   *)
+(* performed ONCE; the heap gets that wrapper object (9.9): a String object has the own properties of     *)
+(* 15.5.5.1-2 (length and one read-only element per code unit), Number and Boolean objects have none.     *)
+(* inh are properties put on the wrapper's prototype (String/Number/Boolean.prototype), see LinkProtos.   *)
+RECURSIVE StrProps(_, _, _, _)
+StrProps(H, o, s, i) ==
+    IF i > Len(s) THEN SetProp(H, o, S_length, DataP(IntV(Len(s)), FALSE, FALSE, FALSE))
+    ELSE StrProps(SetProp(H, o, IdxS(i - 1), DataP(StrV(<<s[i]>>), FALSE, TRUE, FALSE)), o, s, i + 1)
+BuildPrim(H0, ob) ==
+    LET o == Len(H0) + 1
+        H1 == Append(H0, [NewObj(PrimClassOf(ob.v), 1) EXCEPT !.fn = [k |-> "prim", v |-> ob.v]])
+    IN  IF ob.v.t = "str" THEN StrProps(H1, o, ob.v.s, 1) ELSE H1
+
+BuildObjO(H0, ob) ==
     LET o  == Len(H0) + 1
         isArr == ob.cls = "Array"
         H1 == Append(H0, IF isArr THEN NewArrayObj ELSE NewObj("Object", 1))
@@ -65,6 +78,8 @@ BuildObj(H0, ob) ==
         H7 == IF isArr THEN BuildExtra(H6, 2, ob.inh, 1) ELSE H6       \* arrays inherit from Array.prototype
     IN  H7
 
+BuildObj(H0, ob) == IF ob.cls = "prim" THEN BuildPrim(H0, ob) ELSE BuildObjO(H0, ob)
+
 RECURSIVE BuildAll(_, _, _)
 BuildAll(H, objs, i) == IF i > Len(objs) THEN H ELSE BuildAll(BuildObj(H, objs[i]), objs, i + 1)
 
@@ -73,7 +88,7 @@ BuildAll(H, objs, i) == IF i > Len(objs) THEN H ELSE BuildAll(BuildObj(H, objs[i
 RECURSIVE LinkProtos(_, _, _)
 LinkProtos(H, objs, i) ==
     IF i > Len(objs) THEN H
-    ELSE IF objs[i].cls = "Object" /\ objs[i].inh # <<>>
+    ELSE IF objs[i].cls \in {"Object", "prim"} /\ objs[i].inh # <<>>
          THEN LET P == Len(H) + 1
                   H1 == BuildExtra(Append(H, NewObj("Object", 1)), P, objs[i].inh, 1)
               IN  LinkProtos([H1 EXCEPT ![i + 2].proto = P], objs, i + 1)
@@ -88,13 +103,16 @@ SortNames(S) == IF S = {} THEN <<>>
                      IN  <<mn>> \o SortNames(S \ {mn})
 
 ProjPrim(v) == IF v.t = "cobj" THEN [t |-> "cobj", id |-> v.id] ELSE v
-ShowProp(p) == [k |-> "data", v |-> ProjPrim(p.v), w |-> p.w, e |-> p.e, c |-> p.c]
+(* the wrapper object created by ToObject(primitive receiver): class, primitive value, identity 1 *)
+IsWrapper(H, v) == v.t = "obj" /\ H[v.id].fn.k = "prim"
+ProjW(H, v) == IF IsWrapper(H, v) THEN [t |-> "wrap", cls |-> H[v.id].cls, k |-> 1, pv |-> H[v.id].fn.v] ELSE ProjPrim(v)
+ShowProp(H, p) == [k |-> "data", v |-> ProjW(H, p.v), w |-> p.w, e |-> p.e, c |-> p.c]
 Show(H, o) ==
     LET names == SortNames(DOMAIN H[o].props)
     IN  [cls |-> H[o].cls, ext |-> H[o].ext,
-         props |-> [i \in 1..Len(names) |-> [n |-> names[i], p |-> ShowProp(H[o].props[names[i]])]]]
+         props |-> [i \in 1..Len(names) |-> [n |-> names[i], p |-> ShowProp(H, H[o].props[names[i]])]]]
 ProjV(H, v, nInit) ==
-    IF v.t = "obj" /\ v.id > nInit THEN [t |-> "new", o |-> Show(H, v.id)] ELSE ProjPrim(v)
+    IF v.t = "obj" /\ v.id > nInit THEN [t |-> "new", o |-> Show(H, v.id)] ELSE ProjW(H, v)
 ProjLog(H, log, nInit) ==
     [i \in 1..Len(log) |->
         IF log[i].k = "s" THEN log[i].s
@@ -115,7 +133,9 @@ RunCall(c) ==
     LET H == BuildCase(c.objs)
         nInit == Len(c.objs) + 2
         args == [i \in 1..Len(c.args) |-> ResolveArg(c.args[i])]
-    IN  Outcome(Call(c.m, Mk(H, <<>>), 3, args), nInit)
+        out == Outcome(Call(c.m, Mk(H, <<>>), 3, args), nInit)
+        \* a primitive receiver has no state to show (the wrapper is not reachable afterwards)
+    IN  [out EXCEPT !.v.objs = [i \in 1..Len(c.objs) |-> IF c.objs[i].cls = "prim" THEN [prim |-> c.objs[i].v] ELSE @[i]]]
 
 -----------------------------------------------------------------------------
 (* object-model steps on the receiver (object 3): the array exotic object as *)
